@@ -18,7 +18,7 @@ job('strpriv_mod', 'compare_ci5', 'h_compare_ci5', ['C06'], expect=[r'stp_compar
 job('strpriv', 'find_ci_char', 'h_find_ci_char', ['C07', 'C09'], expect=[r'stp_find_ci_char\.postcondition\.[12]', r'stp_find_ci__pc_sz_c\.loop0\.invariant_step'])
 job('strpriv', 'find_cs_needle', 'h_find_cs_needle', ['C07', 'C09'], expect=[r'stp_find_cs_needle\.postcondition\.[123]', r'stp_find_cs__pc_sz_pc_sz\.loop0\.invariant_step', r'stp_find_cs__pc_sz_pc_sz\.loop0\.decreases'])
 job('strpriv_mod', 'find_ci_needle', 'h_find_ci_needle', ['C07', 'C09'], expect=[r'stp_find_ci_needle\.postcondition\.[123]', r'stp_find_ci__pc_sz_pc_sz\.loop0\.invariant_step'])
-PROPS['C06'] = dict(level='proof', explanation='buffer / string compare = first differing element under unsigned order, then length, for operands of any length; case-insensitive compare = first fold-difference; fold functions over all 256 values', trusted_base=['char_traits<char>::compare contract (prelude.h tr_compare_char)'], assumptions=[])
+PROPS['C06'] = dict(level='proof', explanation='compare (buffer and string, every overload) = first differing element under unsigned order, then length, for operands of any length, the size comparison never narrowed; case-insensitive compare = first fold-difference; fold functions over all 256 values; ==, !=, <, compare_n, the const char* / buffer / ST::string overloads, less_i / equal_i forwards are proved to ask the leaf contract about exactly size() units at data() of both operands and to map its sign; to_upper / to_lower change nothing but ASCII letters (loop contract, unbounded); hash / hash_i compute exactly the FNV-1a recurrence over the size() bytes (case-folded for hash_i), so equal resp. fold-equal strings hash equal (by induction over the recurrence, stated)', trusted_base=['char_traits<char>::compare contract (prelude.h tr_compare_char)'], assumptions=[])
 PROPS['C07'] = dict(level='proof', explanation='needle and character search return the first occurrence for haystacks and needles of unbounded length (witness ghosts instead of quantifiers)', trusted_base=['char_traits<char>::find / compare contracts (prelude.h)'], assumptions=[])
 BOPS = ['ST::buffer<char>::compare|(const buffer<char> &) const', 'ST::buffer<char>::operator==|(const buffer<char> &)', 'ST::buffer<char>::operator!=|(const buffer<char> &)', 'ST::buffer<char>::operator<',
         'ST::buffer<char>::compare_n|(const buffer<char> &', 'ST::buffer<char>::compare|(const char *) const']
